@@ -275,6 +275,7 @@ func TestC18(t *testing.T) {
 	c18Rates(t, tr, rng, a)
 	c18LendTracker(t, tr, rng, a)
 	c18VaultFlow(t, tr, rng, a)
+	c18LockerFlow(t, tr, NewRng(c18Mix(seed(), 7)), a)
 }
 
 // c18Float: CalculationOfRewards called directly; groups of related inputs.
@@ -790,6 +791,31 @@ func c18Rates(t *testing.T, tr *Trace, rng *Rng, a *c18App) {
 		}
 		tr.Line("lr.rates", f...)
 		tr.Count("rates:" + o)
+		if o == "ok" && rng.Chance(25) {
+			// ReBalanceStableRates on a stable borrow of this asset: stable rates at both 20-point boundaries, their neighbours, random
+			k.SetLendPair(ctx, lendtypes.Extended_Pair{Id: 1, AssetIn: assetID, AssetOut: assetID, AssetOutPoolID: poolID})
+			ulp := sdk.NewDecWithPrec(1, 18)
+			p1 := sdk.MustNewDecFromStr(lendtypes.Perc1)
+			for _, S := range []sdk.Dec{bs.Add(p1), bs.Add(p1).Sub(ulp), bs.Sub(p1), bs.Sub(p1).Add(ulp), bs, c18Dec(c18Rate(rng))} {
+				if S.IsNegative() {
+					continue
+				}
+				var nb lendtypes.BorrowAsset
+				var err error
+				panicked, _ := try(func() { nb, err = k.ReBalanceStableRates(ctx, lendtypes.BorrowAsset{ID: 1, PairID: 1, IsStableBorrow: true, StableBorrowRate: S}) })
+				ro := c18Outcome(panicked, err)
+				res := "-"
+				if ro == "ok" {
+					res = c18Raw(nb.StableBorrowRate)
+					if nb.StableBorrowRate.Equal(S) {
+						tr.Count("rebalance:kept")
+					} else {
+						tr.Count("rebalance:snapped")
+					}
+				}
+				tr.Line("lr.rebalance", c18Raw(S), c18Raw(bs), c18Raw(uu), ro, res)
+			}
+		}
 	}
 	// realise utilisation uRaw/10^18 exactly: borrowed = uRaw, balance = 10^18 - uRaw
 	atU := func(p [8]*big.Int, uRaw int64) {
@@ -949,14 +975,26 @@ func c18LendTracker(t *testing.T, tr *Trace, rng *Rng, a *c18App) {
 			// what the accrual function returns for this step (REAL function; also compared with the model)
 			a2 := &c18App{app: app, ctx: sctx}
 			a2.c18LendCall(tr, "lend", lend.AmountIn.Amount, apr.BigInt(), nil, lend.GlobalIndex.BigInt(), nil, now, lend.LastInteractionTime.Unix())
-			x, _, err := k.CalculateLendReward(sctx, lend.AmountIn.Amount.String(), apr, lend)
+			x, igc, err := k.CalculateLendReward(sctx, lend.AmountIn.Amount.String(), apr, lend)
 			must(err)
 			trB := "0"
 			if tk, f := k.GetLendRewardTracker(sctx, 1); f {
 				trB = c18Raw(tk.RewardsAccumulated)
 			}
 			var idx sdk.Dec
-			panicked, _ := try(func() { idx, err = k.IterateLends(sctx, 1) })
+			// half of the steps: the keeper function behind MsgCalculateInterestAndRewards, which calls IterateLends and then
+			// stores (index, now) itself; otherwise IterateLends directly, followed by what its callers do
+			useMsg := rng.Chance(50)
+			var panicked bool
+			if useMsg {
+				cc, write := sctx.CacheContext()
+				panicked, _ = try(func() { err = k.MsgCalculateLendRewards(cc, owner.String(), 1) })
+				if !panicked && err == nil {
+					write()
+				}
+			} else {
+				panicked, _ = try(func() { idx, err = k.IterateLends(sctx, 1) })
+			}
 			if panicked || err != nil {
 				tr.Count("lendtrack:" + c18Outcome(panicked, err))
 				break
@@ -968,6 +1006,24 @@ func c18LendTracker(t *testing.T, tr *Trace, rng *Rng, a *c18App) {
 			tr.Count("lendtrack:ok")
 			if paid.IsPositive() {
 				tr.Count("lendtrack:paid")
+			}
+			if useMsg {
+				// the clock of the position: the handler stored (index returned by CalculateLendReward, now)
+				again, _, err := k.CalculateLendReward(sctx, lend2.AmountIn.Amount.String(), apr, lend2) // a second calculation in the same block
+				must(err)
+				tr.Line("lr.stamp", i64(now), i64(lend2.LastInteractionTime.Unix()), c18Raw(lend2.GlobalIndex), c18Raw(igc), c18Raw(again))
+				tr.Count("lendtrack:msg")
+				// governance changes the rate parameters in the same block; a second calculation must accrue nothing (zero
+				// time), whatever the lend rate has become
+				p, _ := k.GetAssetRatesParams(sctx, assetID)
+				p.Slope1 = c18DecI(int64(1 + rng.U64()%900000000000000000))
+				p.Base = c18DecI(int64(rng.U64() % 50000000000000000))
+				k.SetAssetRatesParams(sctx, p)
+				apr2, err := k.GetLendAPRByAssetIDAndPoolID(sctx, poolID, assetID)
+				must(err)
+				a2.c18LendCall(tr, "lend", lend2.AmountIn.Amount, apr2.BigInt(), nil, lend2.GlobalIndex.BigInt(), nil, now, lend2.LastInteractionTime.Unix())
+				tr.Count("lendtrack:same_block_after_rate_change")
+				continue
 			}
 			// what every caller of IterateLends does next
 			lend2.GlobalIndex = idx
@@ -1017,12 +1073,32 @@ func c18VaultProj(app *chain.App, ctx sdk.Context) []string {
 
 func c18VaultFlow(t *testing.T, tr *Trace, rng *Rng, a *c18App) {
 	app, base := a.app, a.ctx
-	owner := sdk.AccAddress([]byte("c18-owner-address---")).String()
+	ownerAddr := sdk.AccAddress([]byte("c18-owner-address---"))
+	owner := ownerAddr.String()
 	one := math.Float64bits(1.0)
+	// fixtures for the real MsgDeposit: pair 1 = CMDX -> CMST, the owner holds collateral
+	if _, found := app.AssetKeeper.GetPair(base, 1); !found {
+		if err := app.AssetKeeper.AddPairsRecords(base, assettypes.Pair{AssetIn: 3, AssetOut: 1}); err != nil {
+			t.Fatal(err)
+		}
+	}
+	{
+		coins := sdk.NewCoins(sdk.NewCoin("ucmdx", sdk.NewInt(1000000000000)))
+		if err := app.BankKeeper.MintCoins(base, rewardstypes.ModuleName, coins); err != nil {
+			t.Fatal(err)
+		}
+		if err := app.BankKeeper.SendCoinsFromModuleToAccount(base, rewardstypes.ModuleName, ownerAddr, coins); err != nil {
+			t.Fatal(err)
+		}
+	}
 	seqs := scale(400, 6000)
-	for sq := 0; sq < seqs; sq++ {
+	for sq := -2; sq < seqs; sq++ {
 		ctx, _ := base.CacheContext()
 		mode := rng.Intn(10) // 0-2: opened while the fee was zero, fee switched on later; 3-5: flag 0 with a running fee; else: ordinary
+		corpus := sq < 0     // -2: WITNESS of defect D36 (vault deposited into while the fee is zero); -1: the same history, idle vault
+		if corpus {
+			mode = 0
+		}
 		fee := big.NewInt(int64(10000000000000000 * (1 + rng.Intn(5)))) // 1 .. 5 %
 		if rng.Chance(30) {
 			fee = c18Rate(rng)
@@ -1036,6 +1112,9 @@ func c18VaultFlow(t *testing.T, tr *Trace, rng *Rng, a *c18App) {
 		}
 		t0 := c18Now - int64(rng.Intn(int(2*c18Year)))
 		pbt := t0 - int64(rng.Intn(5000000))
+		if corpus {
+			fee, principal, t0, pbt = big.NewInt(100000000000000000), sdk.NewInt(1000000), 1700000000, 1700000000
+		}
 		startFee := fee
 		pbh, vbh := int64(5), int64(7)
 		switch {
@@ -1045,7 +1124,7 @@ func c18VaultFlow(t *testing.T, tr *Trace, rng *Rng, a *c18App) {
 			vbh = 0
 		}
 		ia0 := sdk.ZeroInt()
-		if rng.Chance(20) {
+		if rng.Chance(20) && !corpus {
 			ia0 = sdk.NewInt(int64(rng.Intn(1000000)))
 		}
 		app.AssetKeeper.SetPairsVault(ctx, assettypes.ExtendedPairVault{
@@ -1058,7 +1137,7 @@ func c18VaultFlow(t *testing.T, tr *Trace, rng *Rng, a *c18App) {
 		app.VaultKeeper.SetAppExtendedPairVaultMappingData(ctx, vaulttypes.AppExtendedPairVaultMappingData{AppId: 1, ExtendedPairId: 1, VaultIds: []uint64{1},
 			TokenMintedAmount: principal, CollateralLockedAmount: sdk.NewInt(1)})
 		trk := "none"
-		if rng.Chance(25) {
+		if rng.Chance(25) && !corpus {
 			f0 := c18DecI(int64(rng.U64() % 1000000000000000000))
 			app.Rewardskeeper.SetVaultInterestTracker(ctx, rewardstypes.VaultInterestTracker{VaultId: 1, AppMappingId: 1, InterestAccumulated: f0})
 			trk = c18Raw(f0)
@@ -1074,6 +1153,22 @@ func c18VaultFlow(t *testing.T, tr *Trace, rng *Rng, a *c18App) {
 		}
 		now := t0
 		height := int64(100)
+		// ghost of the specification (never reads the stamps after this point): fee in force, time of the last fee update, time
+		// the vault was last settled
+		gFee, gSeg, gSettled := new(big.Int).Set(startFee), pbt, t0
+		if vbh == 0 {
+			gSettled = pbt
+		}
+		legit := func(at int64) string {
+			if gFee.Sign() == 0 {
+				return "-"
+			}
+			start := gSeg
+			if gSettled > start {
+				start = gSettled
+			}
+			return c18PowField(c18Dec(gFee), at-start)
+		}
 		gap := func() int64 {
 			switch rng.Intn(6) {
 			case 0:
@@ -1116,13 +1211,37 @@ func c18VaultFlow(t *testing.T, tr *Trace, rng *Rng, a *c18App) {
 					DebtCeiling: sdk.NewInt(0), DebtFloor: sdk.NewInt(0), MinUsdValueLeft: 0})
 			})
 			o := c18Outcome(panicked, err)
-			tr.Line("va.update", append([]string{i64(now), i64(height), newFee.String(), u(pb), o}, c18VaultProj(app, sctx)...)...)
+			tr.Line("va.update", append(append([]string{i64(now), i64(height), newFee.String(), u(pb), o}, c18VaultProj(app, sctx)...), legit(now))...)
 			tr.Count("va:update:" + o)
+			if o == "ok" {
+				if gFee.Sign() != 0 {
+					gSettled = now
+				}
+				gSeg, gFee = now, new(big.Int).Set(newFee)
+			}
+		}
+		// a real MsgDeposit of collateral: accrues like MsgVaultInterestCalc, then re-stamps the vault
+		deposit := func(amt int64) {
+			now += gap()
+			height++
+			sctx := ctx.WithBlockTime(time.Unix(now, 0)).WithBlockHeight(height)
+			pb := powFor(sctx, now, curFee(sctx))
+			lg := legit(now)
+			o := c18Deliver(app, sctx, vaulttypes.NewMsgDepositRequest(ownerAddr, 1, 1, 1, sdk.NewInt(amt)))
+			tr.Line("va.deposit", append(append([]string{i64(now), i64(height), i64(amt), u(pb), o}, c18VaultProj(app, sctx)...), lg)...)
+			tr.Count("va:deposit:" + o)
+			if o == "ok" {
+				if gFee.Sign() == 0 {
+					tr.Count("va:deposit:at_zero_fee")
+				}
+				gSettled = now
+			}
 		}
 		calc := func(c sdk.Context, at, h int64, kind string) string {
 			sctx := c.WithBlockTime(time.Unix(at, 0)).WithBlockHeight(h)
 			v, _ := app.VaultKeeper.GetVault(sctx, 1)
 			pb := powFor(sctx, at, curFee(sctx))
+			lg := legit(at)
 			debt := v.AmountOut.Add(v.InterestAccumulated)
 			var o string
 			if kind == "direct" {
@@ -1144,7 +1263,14 @@ func c18VaultFlow(t *testing.T, tr *Trace, rng *Rng, a *c18App) {
 				f = []string{i64(at), i64(h), u(pb), o}
 			}
 			v2, _ := app.VaultKeeper.GetVault(sctx, 1)
-			tr.Line(line, append(f, c18VaultProj(app, sctx)...)...)
+			if kind == "once" {
+				tr.Line(line, append(f, c18VaultProj(app, sctx)...)...)
+			} else {
+				tr.Line(line, append(append(f, c18VaultProj(app, sctx)...), lg)...)
+				if o == "ok" && gFee.Sign() != 0 && at >= gSettled {
+					gSettled = at
+				}
+			}
 			tr.Count("va:" + kind + ":" + o)
 			if o == "ok" && kind != "once" {
 				if v2.InterestAccumulated.GT(v.InterestAccumulated) {
@@ -1158,8 +1284,39 @@ func c18VaultFlow(t *testing.T, tr *Trace, rng *Rng, a *c18App) {
 			}
 			return o
 		}
-		if mode <= 2 { // the fee is switched on through the real binding
+		if corpus {
+			// fee zero since t0; (-2) the owner deposits collateral after a day; the fee is switched on after a year; interest is
+			// calculated in the block of the switch-on
+			day := int64(86400)
+			if sq == -2 {
+				now += day - 1
+				gapSave := gap
+				gap = func() int64 { return 1 }
+				deposit(5)
+				gap = gapSave
+			}
+			now = t0 + 365*day
+			{
+				gapSave := gap
+				gap = func() int64 { return 0 }
+				update(fee)
+				gap = gapSave
+			}
+			calc(ctx, now, height+1, "msg")
+			height++
+			calc(ctx, now+30*day, height+1, "msg")
+			tr.Count("va:corpus")
+			continue
+		}
+		if mode <= 2 { // the fee is switched on through the real binding, possibly after the vault was deposited into
+			if rng.Chance(35) {
+				deposit(int64(1 + rng.Intn(1000)))
+			}
 			update(fee)
+			if rng.Chance(50) {
+				calc(ctx, now, height+1, "msg") // in the block of the switch-on
+				height++
+			}
 		}
 		steps := rng.Range(3, scale(9, 14))
 		for st := 0; st < steps; st++ {
@@ -1168,7 +1325,22 @@ func c18VaultFlow(t *testing.T, tr *Trace, rng *Rng, a *c18App) {
 				p = 99 // start with repeated triggers while the vault still carries the flag
 			}
 			switch {
-			case p < 12:
+			case p < 5:
+				deposit(int64(1 + rng.Intn(1000)))
+			case p < 9: // zero-fee window: off, idle or deposited into, on again, calculation at once or later
+				if curFee(ctx).IsZero() == false {
+					update(big.NewInt(0))
+				}
+				if rng.Chance(40) {
+					deposit(int64(1 + rng.Intn(1000)))
+				}
+				update(big.NewInt(int64(10000000000000000 * (1 + rng.Intn(9)))))
+				if rng.Chance(60) {
+					calc(ctx, now, height+1, "msg")
+					height++
+				}
+				tr.Count("va:zero_window")
+			case p < 16:
 				nf := fee
 				switch rng.Intn(3) {
 				case 0:
@@ -1177,11 +1349,11 @@ func c18VaultFlow(t *testing.T, tr *Trace, rng *Rng, a *c18App) {
 					nf = big.NewInt(int64(10000000000000000 * (1 + rng.Intn(9))))
 				}
 				update(nf)
-			case p < 22:
+			case p < 24:
 				now += gap()
 				height++
 				calc(ctx, now, height, "direct")
-			case p < 26:
+			case p < 27:
 				// the clock never runs backwards on chain; exercised as the error path (message rejected, nothing written)
 				height++
 				calc(ctx, now-int64(1+rng.Intn(1000)), height, "msg")
